@@ -4,7 +4,7 @@
 From Coq Require Import String List NArith ZArith Bool.
 From Coq Require Import Init.Byte.
 From FFS Require Import Base.Res Base.Bytes Base.Lit Base.Keccak.
-From FFS Require Import Abi.Types Abi.Spec Abi.ModelTypes Abi.Render Abi.DecModel Abi.DecSpec Abi.SerModel Abi.SerSpec.
+From FFS Require Import Abi.Types Abi.Spec Abi.ModelTypes Abi.Render Abi.DecModel Abi.DecSpec Abi.SerModel Abi.SerSpec Abi.SerWire.
 Import ListNotations.
 
 (* the implementation's decoded tree as projected by the harness (by the dynamic type of each Value) *)
@@ -110,10 +110,18 @@ Definition check_case (k : case) : N :=
       if tree_agrees (DecodeABIData c (bexpand blk) off) (fun x => cval_matches x itree) icls then 0 else 2
   | CSer s c v icls ijson rt =>
       let x := cv_of c v in
-      if denote_claimed s c && negb ((icls =? 0)%nat && denotes keccak256 s c v ijson) then 13
-      else if roundtrip_claimed s c && (rt =? 2)%nat then 14
-      else if tree_agrees (SerializeJSON keccak256 no_float NumericDefaultNameGenerator s x) (fun j => jv_eqb j ijson) icls
-      then 0 else 4
+      (* the model side is the faithful json.Marshal view (SerWire.v): invalid UTF-8 in a string leaf is
+         written as U+FFFD.  When a string leaf of the value is not valid UTF-8 the two serializer clauses
+         cannot hold (known finding C03/string-invalid-utf8): code 15 if the model predicted the
+         implementation's document exactly, code 4 (correspondence broken) otherwise *)
+      let agrees := tree_agrees (SerializeJSON_go keccak256 no_float NumericDefaultNameGenerator s x)
+                                (fun j => jv_eqb j ijson) icls in
+      let clean := strings_utf8 (ty_of c) v in
+      if denote_claimed s c && negb ((icls =? 0)%nat && denotes keccak256 s c v ijson)
+      then (if clean then 13 else if agrees then 15 else 4)
+      else if roundtrip_claimed s c && (rt =? 2)%nat
+      then (if clean then 14 else if agrees then 15 else 4)
+      else if agrees then 0 else 4
   | CSkip => 0
   end.
 
